@@ -49,6 +49,7 @@ type Descriptor struct {
 	Strict    bool
 	TypeFn    *ast.FuncLit
 	Function  *ast.FuncLit
+	Factory   *ast.FuncLit // the enclosing immediately-invoked literal (holds per-function state such as caches)
 	FuncExpr  ast.Expr
 }
 
@@ -172,6 +173,19 @@ func FunctionMap(p *core.Program) ([]*Descriptor, *core.FuncRef, error) {
 					case "Function":
 						d.FuncExpr = dkv.Value
 						d.Function, _ = core.Unparen(dkv.Value).(*ast.FuncLit)
+						// func() func(values) (Value, error) { cache := …; return func(values…) {…} }()
+						if call, ok := core.Unparen(dkv.Value).(*ast.CallExpr); ok && d.Function == nil {
+							if outer, ok := core.Unparen(call.Fun).(*ast.FuncLit); ok {
+								d.Factory = outer
+								for _, rs := range ReturnsOf(outer) {
+									if len(rs.Results) == 1 {
+										if inner, ok := core.Unparen(rs.Results[0]).(*ast.FuncLit); ok {
+											d.Function = inner
+										}
+									}
+								}
+							}
+						}
 					}
 				}
 				out = append(out, d)
